@@ -199,13 +199,46 @@ func dedupeTypes(s *Scenario) {
 // is the type of some supplied input (such a vertex always exists when the
 // generators run); without inputs fall back to plain delivery.
 func fixDelivery(s *Scenario, r *rand.Rand) {
+	// A generator is shown every value vertex of the call graph as it stands
+	// once the given converters have been added: supplied values, the
+	// target's NAMED requirements, the named inputs and all outputs of the
+	// GIVEN converters. The trigger of a generated converter is the type of one of
+	// those, so that the generator always gets to manufacture it — half of
+	// the time a type that only occurs as an intermediate value.
+	var direct, inter []int
+	for _, l := range s.Inputs {
+		direct = append(direct, l.Type)
+	}
+	for _, c := range s.Convs {
+		if c.Deliver == DelGen {
+			continue
+		}
+		// (type-only REQUIREMENTS are argument vertices, not values: a
+		// generator is not shown those)
+		for _, l := range c.In {
+			if l.Name != "" {
+				inter = append(inter, l.Type)
+			}
+		}
+		for _, l := range c.Out {
+			inter = append(inter, l.Type)
+		}
+	}
+	for _, l := range s.Target.In {
+		if l.Name != "" {
+			inter = append(inter, l.Type)
+		}
+	}
 	for i := range s.Convs {
 		if s.Convs[i].Deliver == DelGen {
-			if len(s.Inputs) == 0 {
+			switch {
+			case len(inter) > 0 && (len(direct) == 0 || r.Intn(2) == 0):
+				s.Convs[i].GenTrig = pick(r, inter)
+			case len(direct) > 0:
+				s.Convs[i].GenTrig = pick(r, direct)
+			default:
 				s.Convs[i].Deliver = DelFunc
-				continue
 			}
-			s.Convs[i].GenTrig = pick(r, s.Inputs).Type
 		}
 	}
 }
